@@ -80,6 +80,7 @@ def run(rep, tier):
     rule_r1(rep, idx)
     rule_r2(rep, idx)
     rule_r3(rep)
+    rule_loader_locals(rep, idx)
     rule_r4(rep, idx)
     from .. import report as _report
     from . import c02
@@ -320,6 +321,56 @@ def rule_r2(rep, idx):
                 ('registers, stores or output of this step depend on the uninitialised local(s) %s on some path (e.g. a read() at end of input that '
                  'stores nothing leaves the target as it was): the run is not a function of binary, input and options' % ind) if ind else
                 'no step effect depends on an uninitialised local', nontrivial=False)
+
+
+def rule_loader_locals(rep, idx):
+    rep.rule('R6', 'the loader never acts on a value it did not read: every local that hexsim::Processor::load fills through '
+             'file.read(reinterpret_cast<char*>(&x), n) has an initialiser, or the state of the stream is tested directly after the read and '
+             'before x is used -- on a missing, empty or truncated file the read stores nothing, and an uninitialised x (a size, a count) '
+             'then steers the loader by whatever the stack held', floor=3)
+    f = idx.func('hexsim::Processor::load')
+    stmts = []
+
+    def flat(n):
+        for c in children(n):
+            if c.get('kind') == 'CompoundStmt':
+                flat(c)
+            else:
+                stmts.append(c)
+                for g in children(c):
+                    if g.get('kind') in ('CompoundStmt', 'ForStmt', 'WhileStmt', 'IfStmt', 'DoStmt'):
+                        flat(g if g.get('kind') == 'CompoundStmt' else {'inner': [g]})
+    flat(f.body)
+    n_sites = 0
+    seen_sites = set()
+    for i, st in enumerate(stmts):
+        for c in cast.calls_in(st):
+            if callee_of(c)[1] != 'read' or len(cast.call_args(c)) != 2:
+                continue
+            tgt = cast.strip(cast.call_args(c)[0])
+            while tgt.get('kind') in ('CXXReinterpretCastExpr', 'ImplicitCastExpr', 'CStyleCastExpr', 'ParenExpr') and children(tgt):
+                tgt = cast.strip(children(tgt)[0])
+            if not (tgt.get('kind') == 'UnaryOperator' and tgt.get('opcode') == '&'):
+                continue
+            vid = cast.decl_ref(children(tgt)[0])
+            d = idx.by_id.get(vid) if vid else None
+            if d is None or d.get('kind') != 'VarDecl':
+                continue
+            if (d.get('id'), pos(c)) in seen_sites:
+                continue
+            seen_sites.add((d.get('id'), pos(c)))
+            n_sites += 1
+            init = [k for k in children(d) if 'kind' in k]
+            nxt = stmts[i + 1] if i + 1 < len(stmts) else None
+            tested = nxt is not None and nxt.get('kind') == 'IfStmt' and any(
+                callee_of(x)[1] in ('good', 'fail', 'bad', 'eof', 'operator!', 'operator bool', 'gcount') for x in cast.calls_in(children(nxt)[0]))
+            ok = bool(init) or tested
+            rep.add('R6', 'load:%s@%s' % (d.get('name'), pos(c).split(':')[-1]), ok, pos(c) + ' hexsim::Processor::load',
+                    ('initialised' if init else 'stream state tested directly after the read') if ok else
+                    '%s is declared without a value and filled by read(): on an empty, truncated or missing file it stays indeterminate and is '
+                    'used (as a size / count / index) all the same -- two runs on the same file can differ' % d.get('name'))
+    if n_sites == 0:
+        rep.undecided('R6', 'load', 'no read() into a local found in the loader: shape not recognised', pos(f.node) + ' hexsim::Processor::load')
 
 
 def rule_r3(rep):
